@@ -303,6 +303,17 @@ def epoch_stop(ctx: Ctx, ml):
             ctx.violation("oracle", "EpochStop verdict/best_model differ from the specification", case)
         elif impl != mod:
             ctx.violation("correspondence", "EpochStop differs from Lean model eStep", dict(case, model=mod))
+        # the same object driven through a second training call (epochs start again at 0), and then with
+        # a non-sequential epoch counter (resumed training): exactly `epochs` epochs again
+        again = []
+        for e in calls:
+            v = cond.stop(2000 + e, e, None, None, 0.0)
+            again.append((bool(v), None if cond.best_model is None else cond.best_model - 2000))
+        resumed = [(bool(cond.stop(3000 + e, e, None, None, 0.0)), cond.best_model - 3000) for e in (4, 5, 2, 7, 0)]
+        ctx.case(("EpochStop-reused", epochs), epochs >= 1)
+        if again != want or resumed != [(e >= epochs, e) for e in (4, 5, 2, 7, 0)]:
+            ctx.violation("oracle", "EpochStop: a re-used object / a non-sequential epoch counter does not stop after exactly "
+                                    "the requested number of epochs", dict(case, second_call=again, resumed=resumed))
 
 
 # ---------------------------------------------------------------------------------------------
@@ -313,10 +324,11 @@ class Runaway(Exception):
     pass
 
 
-def train_run(ctx: Ctx, cond_name, patience, delta, script, with_val, cond=None):
+def train_run(ctx: Ctx, cond_name, patience, delta, script, with_val, cond=None, nb=1):
     """script[e] = value of the single model parameter after e epochs.
-    train loss of epoch e+1 = script[e] (loss is evaluated before the update, one batch per epoch),
-    validation loss of epoch e+1 = script[e+1]."""
+    train loss of epoch e+1 = script[e] (loss is evaluated before the update; with `nb` batches per epoch the
+    parameter only moves at the last batch of the epoch, so every batch loss of the epoch is script[e] and their
+    MEAN, the epoch loss, is script[e] too), validation loss of epoch e+1 = script[e+1]."""
     import equinox as eqx
     import jax
     import jax.numpy as jnp
@@ -341,13 +353,13 @@ def train_run(ctx: Ctx, cond_name, patience, delta, script, with_val, cond=None)
         return jnp.zeros((), dtype=jnp.int32)
 
     def update(grads, state, params=None):
-        nxt = table[state + 1]
+        nxt = table[(state + 1) // nb]
         upd = jax.tree_util.tree_map(lambda p: nxt - p, params)
         return upd, state + 1
 
     optimizer = optax.GradientTransformation(init, update)
-    X = geom.MultiImage({(0, 0): jnp.ones((2, 1, 2, 2))}, 2)
-    Y = geom.MultiImage({(0, 0): jnp.ones((2, 1, 2, 2))}, 2)
+    X = geom.MultiImage({(0, 0): jnp.ones((2 * nb, 1, 2, 2))}, 2)
+    Y = geom.MultiImage({(0, 0): jnp.ones((2 * nb, 1, 2, 2))}, 2)
     if cond is not None:
         pass  # a used condition object is handed in as it is
     elif cond_name == "EpochStop":
@@ -390,6 +402,27 @@ def training_runs(ctx: Ctx, n_runs):
         ("EpochStop", 3, Fraction(0), [9, 8, 7, 6, 5, 4], False),
         ("TrainLoss", 2, Fraction(0), [3, 3, 3, 3, 3, 3, 3], True),
     ]
+    # several batches per epoch with min_delta > 0: the epoch loss handed to the condition is the MEAN of the
+    # batch losses (a sum would scale every decrease and change which epochs count as improvements)
+    multi = [("TrainLoss", 0, Fraction(1, 2), [8, 7, 6.625, 6.25, 5.875, 5.875, 5.875], False, 2),
+             ("TrainLoss", 1, Fraction(3, 4), [4, 3.5, 3, 2.5, 2.5, 2.5, 2.5], True, 3)]
+    for cond_name, patience, delta, script, with_val, nb in multi[: (1 if ctx.tier == "quick" else 2)]:
+        sc = [Fraction(v) for v in script]
+        mo = drv.call("c19.loop", patience=patience, delta=jrat(delta), losses=[jrat(x) for x in sc[:-1]], fuel=len(sc) + 1)
+        stopped, epoch, got_w = train_run(ctx, cond_name, patience, delta, sc, with_val, nb=nb)
+        case = {"condition": cond_name, "patience_or_epochs": patience, "min_delta": str(delta), "batches_per_epoch": nb,
+                "parameter_script": [str(x) for x in sc], "validation": with_val,
+                "impl": {"stopped": stopped, "stop_epoch": epoch, "returned_w": got_w}, "model": mo}
+        ctx.case(("train-multibatch", cond_name, patience, str(delta), nb), True)
+        ctx.hist("train_run", cond_name + "/multibatch")
+        if mo["stopped"]:
+            want_w = float(sc[mo["best"]]) if mo["best"] is not None else None
+            if not stopped:
+                ctx.violation("oracle", "ml.train did not terminate on a non-improving history (runaway guard hit)", case)
+            elif epoch != mo["epoch"] or got_w != want_w:
+                case["expected"] = {"stop_epoch": mo["epoch"], "returned_w": want_w}
+                ctx.violation("oracle", "ml.train with several batches per epoch stopped at the wrong epoch or returned the "
+                                        "wrong model (the monitored epoch loss is the mean of the batch losses)", case)
     while len(configs) < n_runs:
         cond = ["TrainLoss", "ValLoss"][int(rng.integers(2))]
         pat = int(rng.integers(0, 3))
@@ -631,7 +664,7 @@ def run(ctx: Ctx):
         "patience 0..3 x min_delta {0,1/2,3/2} (3/2 makes unit decreases non-improvements) x {TrainLoss,ValLoss} x scalar representation "
         "{python float, numpy.float32, numpy.float64, 0-d jax array} (all four up to length L-1, two on "
         "length L), driven call by call through the real classes after one loss-less call; EpochStop for "
-        "epochs 0..5; plus real ml.train runs with a scripted loss history under a runaway guard. "
+        "epochs 0..5 (also re-used for a second call and with a non-sequential epoch counter); plus real ml.train runs (one of them with several batches per epoch and min_delta > 0) with a scripted loss history under a runaway guard. "
         "Family 'reused': ONE TrainLoss/ValLoss object through two consecutive sequences driven as ml.train does "
         "(best_model = initial model, then stop(model, epoch, losses) per epoch until True or the cap; model ids "
         "100+epoch in the first sequence, epoch in the second): first histories over the alphabet up to length "
